@@ -1,5 +1,5 @@
 """C16 — all transports and address forms behave identically (the structural parts that make them differ when wrong)."""
-from vlib.cfg import Cfg, DefUse, Slice, ref_chain
+from vlib.cfg import Cfg, DefUse, Slice, ref_chain, const_strings
 from vlib.cond import switch_cond, bool_edges, variant_edge
 from vlib.facts import AnchorMissing
 
@@ -146,13 +146,19 @@ def r2(cx):
              "when the listener already is descriptor 3 nothing clears its close-on-exec flag: the activated service starts without its socket",
              note_ok="fd == 3: fcntl(F_SETFD, 0)")
     # consumer
-    names = [t.args[0].cstr() for t in co.calls("std::env::var") if t.args and t.args[0].is_const]
+    _cdu = DefUse(co); _csl = Slice(co, _cdu)
+    def var_name(t):
+        if not t.args: return None
+        if t.args[0].is_const: return t.args[0].cstr()
+        c = const_strings(co, _csl, t.args[0])
+        return c[0] if len(c) == 1 else None
+    names = [var_name(t) for t in co.calls("std::env::var") if var_name(t)]
     cx.check(sorted(names) == ["LISTEN_FDNAMES", "LISTEN_FDS", "LISTEN_PID"], "C16.R2", "varlink:activation_listener:names", co.sp,
              "consumer reads %s" % names, note_ok="reads LISTEN_FDS, LISTEN_PID, LISTEN_FDNAMES")
     ccfg = Cfg(co); cdu2 = DefUse(co); csl = Slice(co, cdu2)
     somes = [s for s in co.stmts() if s.kind == "assign" and s.lhs.l == 0 and s.rv == "agg" and isinstance(s.agg, dict) and s.agg.get("variant") == "Some"]
-    cx.floor("C16.R2", "Some(fd) results of activation_listener", len(somes), 2)
-    pidvar = [t for t in co.calls("std::env::var") if t.args and t.args[0].is_const and t.args[0].cstr() == "LISTEN_PID"]
+    cx.floor("C16.R2", "Some(fd) results of activation_listener", len(somes), 1)
+    pidvar = [t for t in co.calls("std::env::var") if var_name(t) == "LISTEN_PID"]
     if len(pidvar) != 1: raise AnchorMissing("activation_listener: env::var(LISTEN_PID)")
     ok_edge = None; eq_edge = None
     for b in co.blocks:
